@@ -204,6 +204,17 @@ func TestC18(t *testing.T) {
 	}()
 	if rp := os.Getenv("VERIF_REPLAY"); rp != "" {
 		var c C18Case
+		var gcase struct {
+			Kind    string `json:"kind"`
+			Grammar string `json:"grammar"`
+		}
+		if _, err := ev.LoadReplay(rp, &gcase); err == nil && gcase.Grammar != "" {
+			col.Eval()
+			if m := checkStatesOf(gcase.Grammar); m != "" {
+				t.Fatalf("replay fails: %s", m)
+			}
+			return
+		}
 		if _, err := ev.LoadReplay(rp, &c); err != nil {
 			t.Fatalf("INFRA: %v", err)
 		}
